@@ -1395,11 +1395,12 @@ def run_phases(ctx, phases, order, workers=3):
         finally:
             import shutil
             shutil.rmtree(tmpd, ignore_errors=True)
-    rets = []
+    rets, errors = [], []
     for name, _ in phases:
         r = res[name]
         if r[0] != "ok":
-            raise RuntimeError(f"C03 phase {name} failed:\n{r[1]}")
+            errors.append(f"C03 phase {name} failed:\n{r[1]}")     # raised below, after the other phases were replayed
+            continue
         _, calls, corr, extra, samples, ret = r
         for kind, nm, detail, key in calls:
             ctx.violation(kind, nm, detail, key=key)
@@ -1407,6 +1408,8 @@ def run_phases(ctx, phases, order, workers=3):
         ctx.extra.update(extra)
         ctx.samples.extend(samples)
         rets.append(ret)
+    if errors:
+        raise RuntimeError("\n".join(errors))
     return rets
 
 def choose_types(ctx, all_tys):
